@@ -22,8 +22,8 @@ def gen_cases(ck, rng, quick):
     maxlog = 10 if quick else 14
     for lg in range(0, maxlog + 1):
         n = 1 << lg
-        lens = sorted(set([max(0, n - 1), n, n + 1, max(0, n // 2), n + n // 2 + 1, 1]))
-        if quick and lg >= 8: lens = [n, n + 3, max(1, n - 5)]
+        lens = sorted(set([max(0, n - 1), n, n + 1, max(0, n // 2), n + n // 2 + 1, 1, 2 * n, 2 * n + 1, 3 * n + 2, 5 * n + 1]))
+        if quick and lg >= 8: lens = [n, n + 3, max(1, n - 5), 2 * n + 1, 3 * n + 7]
         for ln in lens:
             for style in (["random"] if lg >= 8 else ["random", "trailing", "zeros", "boundary"]):
                 v = vec(rng, ln, style)
